@@ -164,7 +164,7 @@ def gen_statements(rng: random.Random, n: int, arity: int, flags: dict, pools: P
     return out
 
 
-def needs(st, prefix_enabled: bool = True) -> tuple[int, int, int]:
+def needs(st, prefix_enabled: bool = True, xsd_counts: bool = False) -> tuple[int, int, int]:
     """Distinct prefix / name / datatype entries one row (statement) needs at once."""
     acc: list = []
     for t in st:
@@ -178,19 +178,20 @@ def needs(st, prefix_enabled: bool = True) -> tuple[int, int, int]:
                 N.add(n)
             else:
                 N.add(s)
-        elif s != T.XSD_STRING:
+        elif s != T.XSD_STRING or xsd_counts:
             D.add(s)
     return len(P), len(N), len(D)
 
 
-def max_needs(stmts, nss=(), prefix_enabled: bool = True, graphs_type: bool = False) -> tuple[int, int, int]:
+def max_needs(stmts, nss=(), prefix_enabled: bool = True, graphs_type: bool = False,
+              xsd_counts: bool = False) -> tuple[int, int, int]:
     mp = mn = md = 0
     for st in stmts:
         rows = [st]
         if graphs_type and len(st) == 4:
             rows = [st[:3], (st[3],)]
         for r in rows:
-            p, n, d = needs(r, prefix_enabled)
+            p, n, d = needs(r, prefix_enabled, xsd_counts)
             mp, mn, md = max(mp, p), max(mn, n), max(md, d)
     for _, iri in nss:
         p, n, d = needs((("iri", iri),), prefix_enabled)
